@@ -1974,11 +1974,13 @@ namespace cds { namespace intrusive {
             {
                 rcu_lock l;
 
-                if ( !find_min_position( pos )) {
-                    m_Stat.onExtractMinFailed();
-                    pDel = nullptr;
-                }
-                else {
+                for ( ;; ) {
+                    if ( !find_min_position( pos )) {
+                        m_Stat.onExtractMinFailed();
+                        pDel = nullptr;
+                        break;
+                    }
+
                     pDel = pos.pCur;
                     unsigned int const nHeight = pDel->height();
 
@@ -1986,11 +1988,11 @@ namespace cds { namespace intrusive {
                         --m_ItemCounter;
                         m_Stat.onRemoveNode( nHeight );
                         m_Stat.onExtractMinSuccess();
+                        break;
                     }
-                    else {
-                        m_Stat.onExtractMinFailed();
-                        pDel = nullptr;
-                    }
+
+                    // another thread is removing that node: the list is not empty, try again
+                    m_Stat.onExtractMinRetry();
                 }
             }
 
@@ -2007,11 +2009,13 @@ namespace cds { namespace intrusive {
             {
                 rcu_lock l;
 
-                if ( !find_max_position( pos )) {
-                    m_Stat.onExtractMaxFailed();
-                    pDel = nullptr;
-                }
-                else {
+                for ( ;; ) {
+                    if ( !find_max_position( pos )) {
+                        m_Stat.onExtractMaxFailed();
+                        pDel = nullptr;
+                        break;
+                    }
+
                     pDel = pos.pCur;
                     unsigned int const nHeight = pDel->height();
 
@@ -2019,11 +2023,11 @@ namespace cds { namespace intrusive {
                         --m_ItemCounter;
                         m_Stat.onRemoveNode( nHeight );
                         m_Stat.onExtractMaxSuccess();
+                        break;
                     }
-                    else {
-                        m_Stat.onExtractMaxFailed();
-                        pDel = nullptr;
-                    }
+
+                    // another thread is removing that node: the list is not empty, try again
+                    m_Stat.onExtractMaxRetry();
                 }
             }
 
